@@ -1249,13 +1249,16 @@ def public(x):
     return x
 
 
-def diff_results(prog, ri, rm, obs=None):
-    """list of (index, op, impl, model) where the two answers differ (restricted to op kinds in obs)"""
+def diff_results(prog, ri, rm, obs=None, out_of_scope=None):
+    """list of (index, op, impl, model) where the two answers differ (restricted to op kinds in obs; answers the
+    property does not quantify over -- out_of_scope(op, impl, model) -- are not compared)"""
     out = []
     for i, (op, a, b) in enumerate(zip(prog, ri, rm)):
         if obs is not None and op[0] not in obs:
             continue
         if a == 'NOREG':
+            continue
+        if out_of_scope is not None and out_of_scope(op, a, b):
             continue
         if public(a) != b:
             out.append((i, op, a, b))
